@@ -230,20 +230,47 @@ theorem C04_return_roundtrip (p : Produces) (ret : Ret) (resp : Resp) (h : respo
 
 /-- what it takes for the values a caller supplies to be decodable: right cardinality for the decoder, each text
 in the language of its type (true of `to_plain` of any value, by C12/C15/C16), header texts visible ASCII, a valid
-token, an acceptable body -/
+token that is text, an acceptable body -/
 def Supplied (ext : Endpoint.Bytes → Bool) (ct : CtClass) (pl : Payload) (i : Nat) (a : CArg) : Prop :=
   match a.spec.kind with
   | .path => ∃ v, a.texts = [v] ∧ decodeParam ext i a.spec.dec a.spec.ty [v] = .ok ()
   | .query => decodeParam ext i a.spec.dec a.spec.ty a.texts = .ok ()
   | .header => decodeHeader ext i a.spec.dec a.spec.ty a.texts = .ok ()
-  | .auth | .cookie => False     -- stated separately (`C04_auth`): needs the position of the header in the list
+  | .auth => ∃ tok, a.texts = [tok] ∧ toStrOk (bearer ++ tok) = true ∧ Token.isValid tok = true
+  | .cookie => ∃ tok, a.texts = [tok] ∧ toStrOk (a.spec.name ++ tok) = true ∧ Token.isValid tok = true
   | .body => decodeBody i a.spec.dec ct pl = .ok ()
   | .context => True
 
-/-- **the handler is invoked** (exactly once, by C19) for any call without auth whose supplied values are decodable
-— i.e. client output is acceptable server input, whatever the texts contain -/
+/-- **auth arguments**: the server parses exactly the one `Authorization` / `Cookie` value the client wrote for the
+endpoint's auth argument -/
+theorem C04_auth_arg (tmpl : List TSeg) (args : List CArg) (wf : CallWF tmpl args) (d : Distinct args)
+    (a : CArg) (ha : ofKind .auth args = [a])
+    (ct : CtClass) (pl : Payload) (dbl : List (Endpoint.Bytes × Bool)) (r : Request)
+    (hr : serverRequest Gen.Uri.component tmpl args ct pl dbl = some r) :
+    headerVals r authorization = [bearer ++ a.texts.headD []] := by
+  have hh := (request_parts tmpl args wf ct pl dbl r hr).2.2.1
+  unfold headerVals
+  rw [clientHeaders_auth_vals args r.headers hh (fun b hb hk => (d.reserved b hb hk).1)]
+  unfold ofKind at ha
+  rw [ha]; rfl
+
+theorem C04_cookie_arg (tmpl : List TSeg) (args : List CArg) (wf : CallWF tmpl args) (d : Distinct args)
+    (a : CArg) (ha : ofKind .cookie args = [a])
+    (ct : CtClass) (pl : Payload) (dbl : List (Endpoint.Bytes × Bool)) (r : Request)
+    (hr : serverRequest Gen.Uri.component tmpl args ct pl dbl = some r) :
+    headerVals r cookie = [a.spec.name ++ a.texts.headD []] := by
+  have hh := (request_parts tmpl args wf ct pl dbl r hr).2.2.1
+  unfold headerVals
+  rw [clientHeaders_cookie_vals args r.headers hh (fun b hb hk => (d.reserved b hb hk).2)]
+  unfold ofKind at ha
+  rw [ha]; rfl
+
+/-- **the handler is invoked** (exactly once, by C19) for any call whose supplied values are decodable — i.e. client
+output is acceptable server input, whatever the texts contain; an endpoint has at most one auth argument -/
 theorem C04_handler_runs (tmpl : List TSeg) (args : List CArg) (wf : CallWF tmpl args) (d : Distinct args)
     (hpaths : ∀ a ∈ args, a.spec.kind = .path → TSeg.param a.spec.name ∈ tmpl)
+    (hauth : ∀ a ∈ args, a.spec.kind = .auth → ofKind .auth args = [a])
+    (hcookie : ∀ a ∈ args, a.spec.kind = .cookie → ofKind .cookie args = [a])
     (ct : CtClass) (pl : Payload) (dbl : List (Endpoint.Bytes × Bool)) (r : Request)
     (hr : serverRequest Gen.Uri.component tmpl args ct pl dbl = some r)
     (hs : ∀ i a, args[i]? = some a → Supplied (fun t => (dbl.lookup t).getD false) ct pl i a) :
@@ -270,6 +297,14 @@ theorem C04_handler_runs (tmpl : List TSeg) (args : List CArg) (wf : CallWF tmpl
     case header =>
       rw [C04_header_arg tmpl args wf d a hmem hkind ct pl dbl r hr, parts.2.2.2.2.2, hsup]
     case body => rw [parts.2.2.2.1, parts.2.2.2.2.1, hsup]
+    case auth =>
+      obtain ⟨tok, ht, htxt, hval⟩ := hsup
+      rw [C04_auth_arg tmpl args wf d a (hauth a hmem hkind) ct pl dbl r hr, ht]
+      exact ((C04_auth bearer tok [] htxt).1).mpr hval
+    case cookie =>
+      obtain ⟨tok, ht, htxt, hval⟩ := hsup
+      rw [C04_cookie_arg tmpl args wf d a (hcookie a hmem hkind) ct pl dbl r hr, ht]
+      exact ((C04_auth a.spec.name tok [] htxt).1).mpr hval
 
 /-! #### non-vacuity -/
 def exTmpl : List TSeg := [.lit [118], .param [112]]
